@@ -11,6 +11,7 @@ Verdict(ev) ==
   ELSE IF ev.alias THEN "writeable_alias_of_container_data"
   ELSE IF \E i \in 1..Len(ev.flags) : ev.flags[i] THEN "writeable_array_reachable"
   ELSE IF ev.kind = "caller_write" /\ ev.wrote THEN "caller_write_visible"
+  ELSE IF ev.kind = "caller_write" /\ ev.touched THEN "caller_array_changed_by_call"
   ELSE "ok"
 Init == l = 1
 Next == /\ l <= Len(Trace)
